@@ -64,6 +64,16 @@ def build_pres_context_def_list(context_def_list):
     )
 
 
+def _negotiated_max_pdu_length(local, remote):
+    """Limit for outgoing P-DATA-TF PDUs: the smaller of the two values, where zero means
+    'no limit' and restricts nothing."""
+    if not remote:
+        return local
+    if not local:
+        return remote
+    return min(local, remote)
+
+
 class Association(object):
     """Base association class.
 
@@ -199,8 +209,8 @@ class AssociationAcceptor(socketserver.StreamRequestHandler, Association):
         acceptable_pr_contexts"""
         user_items = assoc_req.variable_items[-1]
         max_pdu_sub_item = user_items.user_data[0]
-        if self.max_pdu_length > max_pdu_sub_item.maximum_length_received:
-            self.max_pdu_length = max_pdu_sub_item.maximum_length_received
+        self.max_pdu_length = _negotiated_max_pdu_length(
+            self.max_pdu_length, max_pdu_sub_item.maximum_length_received)
         max_pdu_sub_item.maximum_length_received = self.max_pdu_length
 
         # analyse proposed presentation contexts
@@ -389,8 +399,7 @@ class AssociationRequester(Association):
         user_data = response.variable_items[-1].user_data
         try:
             max_pdu_length = user_data[0].maximum_length_received
-            if max_pdu_length and self.max_pdu_length > max_pdu_length:
-                self.max_pdu_length = max_pdu_length
+            self.max_pdu_length = _negotiated_max_pdu_length(self.max_pdu_length, max_pdu_length)
         except IndexError:
             pass
 
